@@ -7,8 +7,9 @@ DIFFS_VIEW = ["pwclass", "pwbytes", "idA", "idB", "swap", "join"]
 DIFFS_PARAM = {"AB": ["M", "N", "gen"], "SS": ["S", "gen"]}
 
 
-def consts_for(g, pairing, diff, wset, tamper):
+def consts_for(g, pairing, diff, wset, tamper, xset=None):
     c = dict(toy_consts(g))
+    c["XSET"] = "{%s}" % ",".join(map(str, xset if xset is not None else range(toy_order(g))))
     c.update({"PAIRING": '"%s"' % pairing, "DIFF": '"%s"' % diff, "WSET": "{%s}" % ",".join(map(str, wset)),
               "TAMPER": '"%s"' % tamper, "ParamSets": "{}", "Passwords": "{}", "IdPairs": "{}", "ClassSet": "{}",
               "MaxInst": "2", "MaxRestore": "0", "ScalarChoices": "<- AllScalars", "Attacker": "<- NoAttacker"})
@@ -37,7 +38,7 @@ def models(ctx, g, thorough):
                          expect_violation="NoAgreementUnlessSameView")
             f8 = f8 or bool(res["violated"])
         # (c) tampering: every string to one end; structured pairs to both ends
-        c = consts_for(g, pairing, "none", allw if thorough else [1], "one")
+        c = consts_for(g, pairing, "none", allw if thorough else [1], "one", xset=None if thorough else [0, 1, 3])
         if thorough or pairing == "AB" or ctx.seed % 2:
           ctx.mc("MC_Tamper", cfg(view="ViewNoLast", spec="TamperSpec", constants=c, invariants=["NoAgreementUnlessSameView", "KeyOnlyFromCanonical"]),
                label="MC_Tamper[%s,%s,one-sided: every string of the universe]" % (g, pairing), timeout=7200)
